@@ -630,6 +630,12 @@ func (r *Runner) halt(hi *haltInfo) {
 		return
 	}
 	r.Stats.Halt = msg
+	if hi.where == "BeginBlock" {
+		// the only alliance code reachable from BeginBlock is the staking hook set (slash callback)
+		r.Eval("C08.a")
+		r.Violate("C08.a", "hook-panic:"+classifyErr(hi.err), "slash callback made BeginBlock fail: "+hi.err)
+		return
+	}
 	r.Eval("C17.a")
 	cls := "halt:" + hi.where + ":" + classifyErr(hi.err)
 	if hi.where == "EndBlock" && strings.Contains(hi.err, "overflow") && r.haltPre != nil && decayOverflowPossible(r.haltPre, r.W.Now) {
@@ -662,7 +668,7 @@ func (r *Runner) finishStep(st *Step) {
 	} else {
 		st.Events = r.lastEvents
 	}
-	st.Slashes = newSlashes(st.Pre, st.Post)
+	st.Slashes = r.orderSlashes(newSlashes(st.Pre, st.Post), st.Events)
 	for range st.Slashes {
 		r.Fault("slash_reached_hooks")
 	}
@@ -701,6 +707,17 @@ func (r *Runner) finishStep(st *Step) {
 			r.Trace = append(r.Trace, fmt.Sprintf("    flow %s %s -> %s %s", f.Kind, short(f.From), short(f.To), f.Coins))
 		}
 		r.Trace = append(r.Trace, st.Post.Summary())
+		for _, pk := range st.Post.DelOrder {
+			resp, err := r.QS.AllianceDelegationRewards(r.Branch(), &alliancetypes.QueryAllianceDelegationRewardsRequest{DelegatorAddr: pk.Del, ValidatorAddr: pk.Val, Denom: pk.Denom})
+			if err != nil {
+				r.Trace = append(r.Trace, fmt.Sprintf("    claimable %s: ERR %v", pk, err))
+			} else if len(resp.Rewards) > 0 {
+				r.Trace = append(r.Trace, fmt.Sprintf("    claimable %s: %s", pk, resp.Rewards))
+			}
+		}
+		for _, v := range st.Post.ValOrder {
+			r.Trace = append(r.Trace, fmt.Sprintf("    history %s: %v", short(v), st.Post.ValInfos[v].GlobalRewardHistory))
+		}
 	}
 	for _, m := range r.Mons {
 		m.OnStep(r, st)
@@ -1294,4 +1311,39 @@ func decayOverflowPossible(pre *Snap, now time.Time) bool {
 		}
 	}
 	return false
+}
+
+// orderSlashes puts the slashes of one step into the order in which they happened, taken from the
+// "slash" events x/slashing emits (address = consensus address). Falls back to the given order.
+func (r *Runner) orderSlashes(obs []SlashObs, events []abci.Event) []SlashObs {
+	if len(obs) < 2 {
+		return obs
+	}
+	var seq []string
+	for _, e := range events {
+		if e.Type != "slash" {
+			continue
+		}
+		addr := attr(e, "address")
+		if addr == "" || attr(e, "reason") == "" {
+			continue
+		}
+		for _, va := range r.W.Vals {
+			if va.ConsAddr.String() == addr {
+				seq = append(seq, va.ValAddr.String())
+			}
+		}
+	}
+	rest := append([]SlashObs{}, obs...)
+	var out []SlashObs
+	for _, v := range seq {
+		for i, o := range rest {
+			if o.Val == v {
+				out = append(out, o)
+				rest = append(rest[:i:i], rest[i+1:]...)
+				break
+			}
+		}
+	}
+	return append(out, rest...)
 }
